@@ -11,3 +11,22 @@ open('/verif/DESIGN.md','w').write(pre+s)
 head=subprocess.check_output(['git','-C','/repo','rev-parse','--short','HEAD']).decode().strip()
 for m in glob.glob('/verif/seeded/*/meta.json'):
     d=json.load(open(m)); d['checked_at_repo_head']=head; json.dump(d,open(m,'w'),indent=1,ensure_ascii=False)
+
+# ---- regenerate the generated lists: §12.1 fix commits, §12.2 open findings, §13 seed table
+import re
+d=open('/verif/DESIGN.md').read()
+fixes=[f for f in subprocess.check_output(['git','-C','/repo','log','--reverse','--format=%h %s','c0802c3..HEAD']).decode().strip().split('\n') if ' fix:' in f]
+lst='\n'.join('* `%s` %s'%(f.split(' ',1)[0], f.split(' ',1)[1][5:]) for f in fixes)
+d=re.sub(r"(### 12\.1 Repaired \(`fix:` commits in /repo, oldest first; )\d+( commits\)\n\n)(?:\* `[0-9a-f]+` [^\n]*\n)+", lambda m: m.group(1)+str(len(fixes))+m.group(2)+lst+'\n', d)
+kf=json.load(open('/verif/known_findings.json'))['findings']
+openf=[f for f in kf if f['status']=='open']
+rows='\n'.join('| %s | `%s` (%s) | %s |'%(f['property'], f['minimal'].replace('|','\\|'), f['clause'], f['what'].replace('|','\\|')) for f in openf)
+d=re.sub(r"(\| property \| minimal failing case \| what fails / why not repaired \|\n\|---\|---\|---\|\n)(?:\|[^\n]*\n)+", lambda m: m.group(1)+rows+'\n', d)
+srows=[]
+for m in sorted(glob.glob('/verif/seeded/*/meta.json')):
+    x=json.load(open(m)); sid=m.split('/')[-2]
+    srows.append('| %s | %s | %s | %s |'%(sid, (x.get('summary') or '')[:150].replace('|','\\|').replace('\n',' '), ', '.join(x['caught_by']), (x.get('note') or '').replace('|','\\|')[:300]))
+d=re.sub(r"(\| seed \| change \| caught by \| note \|\n\|---\|---\|---\|---\|\n)(?:\|[^\n]*\n)+", lambda m: m.group(1)+'\n'.join(srows)+'\n', d)
+d=re.sub(r"reported on the unchanged tree \(\d+ `fix:` commits, \d+ recorded findings\)", "reported on the unchanged tree (%d `fix:` commits, %d recorded findings)"%(len(fixes),len(openf)), d)
+open('/verif/DESIGN.md','w').write(d)
+print('fixes',len(fixes),'open',len(openf),'seeds',len(srows))
